@@ -17,6 +17,7 @@ package props
 import (
 	"context"
 	"fmt"
+	"strings"
 	"sync"
 	"sync/atomic"
 	"time"
@@ -41,7 +42,16 @@ func c02Routes(proto string) []routeSpec {
 	return []routeSpec{
 		{Key: "mux", Cluster: "cl-$P", Extra: jmap{"timeout": "400ms"}},
 		{Key: "retry", Cluster: "cl-$P", Extra: jmap{"timeout": "900ms", "retry_policy": jmap{"retry_on": true, "retry_timeout": "150ms", "num_retries": 2}}},
+		// the same two routes with header actions: request and response frames are not relayed as received but re-encoded
+		// (for xprotocol: the codec's rebuild path, which has to carry the downstream request id over on its own)
+		{Key: "hmux", Cluster: "cl-$P", Extra: jmap{"timeout": "400ms", "request_headers_to_add": c02Hops("rq"), "response_headers_to_add": c02Hops("rs")}},
+		{Key: "hretry", Cluster: "cl-$P", Extra: jmap{"timeout": "900ms", "retry_policy": jmap{"retry_on": true, "retry_timeout": "150ms", "num_retries": 2},
+			"request_headers_to_add": c02Hops("rq"), "response_headers_to_add": c02Hops("rs")}},
 	}
+}
+
+func c02Hops(tag string) []jmap {
+	return []jmap{{"header": jmap{"key": "x-c02-" + tag, "value": "added-" + tag}, "append": false}}
 }
 
 func c02Engine(c *lab.Ctx) {
@@ -111,6 +121,9 @@ func c02Engine(c *lab.Ctx) {
 					default:
 						plan = fmt.Sprintf("d%d:b%d:ok", crng.Intn(300), crng.PickInt(0, 100, 5000))
 					}
+					if crng.Chance(1, 2) {
+						key = "h" + key // the route with header actions
+					}
 					r := reqFor(proto, key, tok, plan)
 					r.Body = []byte(tok + "|" + crng.Alnum(crng.Intn(200)))
 					r.Timeout = 5 * time.Second
@@ -124,7 +137,7 @@ func c02Engine(c *lab.Ctx) {
 						ev = shared.do(r)
 					}
 					c.Eval(1)
-					c.Distinct(fmt.Sprintf("%s|%s|%s", proto, planClass(plan), ev.Kind))
+					c.Distinct(fmt.Sprintf("%s|%s|%s|%v", proto, planClass(plan), ev.Kind, strings.HasPrefix(key, "h")))
 					if ev.Kind != "response" {
 						return
 					}
